@@ -11,7 +11,7 @@ import (
 // Inlining of small helpers.
 //
 // A call to a function of the SAME package that has no contract used to be replaced
-// by a havoc of everything the callee may write.  For small, loop-free, defer-free
+// by a havoc of everything the callee may write.  For small, loop-free
 // helpers the callee's body is now executed in place instead (at most two levels
 // deep).  This is strictly more precise than the havoc, and it keeps a contract
 // valid when a few lines of a function under contract are moved into a helper:
@@ -39,7 +39,7 @@ func (g *Gen) canInline(callee *ssa.Function) bool {
 	if callee == nil || callee.Blocks == nil || len(g.inlineStack) >= 3 || os.Getenv("VERIF_NO_INLINE") != "" {
 		return false
 	}
-	if callee.Pkg == nil || callee.Pkg != g.rootPkg() || callee.Recover != nil || callee.Synthetic != "" {
+	if callee.Pkg == nil || callee.Pkg != g.rootPkg() || callee.Synthetic != "" {
 		return false
 	}
 	if g.eng.contractFor(callee) != nil || g.eng.effectFree(callee) {
@@ -81,9 +81,18 @@ func (g *Gen) canInline(callee *ssa.Function) bool {
 		}
 		for _, in := range b.Instrs {
 			n++
-			switch in.(type) {
-			case *ssa.Defer, *ssa.RunDefers, *ssa.Go, *ssa.Select:
+			switch x := in.(type) {
+			case *ssa.Go, *ssa.Select:
 				return false
+			case *ssa.Defer:
+				// a deferred closure that recovers changes control flow: not inlined
+				if mc, ok := x.Call.Value.(*ssa.MakeClosure); ok {
+					if cf, ok := mc.Fn.(*ssa.Function); ok && callsRecover(cf) {
+						return false
+					}
+				} else if cf, ok := x.Call.Value.(*ssa.Function); ok && callsRecover(cf) {
+					return false
+				}
 			}
 		}
 	}
@@ -128,6 +137,9 @@ func (g *Gen) inlineCall(callee *ssa.Function, all []*Val, rt types.Type) *Val {
 		i++
 	}
 	for _, b := range rpo(callee) {
+		if callee.Recover != nil && b == callee.Recover {
+			continue
+		}
 		if err := child.execBlock(b); err != nil {
 			g.fail("inlining %s: %v", shortName(callee), err)
 		}
@@ -183,4 +195,17 @@ func (g *Gen) inlineCall(callee *ssa.Function, all []*Val, rt types.Type) *Val {
 		return res
 	}
 	return merge(0, rt)
+}
+
+func callsRecover(fn *ssa.Function) bool {
+	for _, b := range fn.Blocks {
+		for _, in := range b.Instrs {
+			if c, ok := in.(*ssa.Call); ok {
+				if bi, ok := c.Call.Value.(*ssa.Builtin); ok && bi.Name() == "recover" {
+					return true
+				}
+			}
+		}
+	}
+	return false
 }
